@@ -191,7 +191,7 @@ def traitFnOf (f : TraitFnItem) : TraitFn :=
 
 theorem analyzeTraitMembers_ok : ∀ (ms : List TraitMember) (fns : List TraitFn),
     analyzeTraitMembers ms = .ok fns →
-      fns = (ms.filterMap (fun mm => match mm with | .fn f => some f | _ => none)).map traitFnOf
+      fns = (ms.filterMap TraitMember.fn?).map traitFnOf
   | [], fns, h => by simp [analyzeTraitMembers] at h; subst h; rfl
   | .fn f :: rest, fns, h => by
       unfold analyzeTraitMembers at h
@@ -200,10 +200,10 @@ theorem analyzeTraitMembers_ok : ∀ (ms : List TraitMember) (fns : List TraitFn
       | ok r =>
         simp [h'] at h
         subst h
-        simp [traitFnOf, analyzeTraitMembers_ok rest r h']
+        simp [traitFnOf, TraitMember.fn?, List.filterMap_cons, analyzeTraitMembers_ok rest r h']
   | .type_ t :: rest, fns, h => by
       unfold analyzeTraitMembers at h
-      simpa using analyzeTraitMembers_ok rest fns h
+      simpa [TraitMember.fn?, List.filterMap_cons] using analyzeTraitMembers_ok rest fns h
   | .other t :: rest, fns, h => by simp [analyzeTraitMembers] at h
 
 /-! ### views -/
